@@ -180,7 +180,7 @@ def bounded_search(run, c, tier, reason, payload=None, skip_known=False):
 def check_lemmas(run, tier):
     """thorough tier: re-check the Lean lemma library; quick tier: record that it was not re-checked this run"""
     import subprocess
-    entry = dict(files=["lemmas/Cycle.lean", "lemmas/Filter.lean", "lemmas/Flat.lean", "lemmas/Remove.lean"], rechecked_this_run=False)
+    entry = dict(files=["lemmas/Cycle.lean", "lemmas/Filter.lean", "lemmas/Flat.lean", "lemmas/Remove.lean", "lemmas/Chain.lean"], rechecked_this_run=False)
     if tier == "thorough":
         try:
             p = subprocess.run([os.path.join(ROOT, "lemmas", "check.sh")], capture_output=True, text=True, timeout=1800)
